@@ -356,6 +356,9 @@ SPREADS = {
                           {'name': 'val', 'type': 'string'}), 'val'),
     'unpivot_key': (lambda: S('unpivot', [{'name': 's', 'keys': {'key': 's'}}], [{'name': 'key', 'type': 'string'}],
                               {'name': 'val', 'type': 'string'}), 'key'),
+    # a copy of a resource is a resource of its own
+    'duplicate': (lambda: S('duplicate', 'a'), 's'),
+    'duplicate_end': (lambda: S('duplicate', 'ab', 'ab2', 'ab2.csv', duplicate_to_end=True), 's'),
     'set_type_all': (lambda: S('set_type', 's', type='string', constraints={'minLength': 1}, resources=None), 's'),
     'update_schema_all': (lambda: {'op': 'update_schema', 'a': [None], 'k': {'missingValues': ['', 'NA']}}, 's'),
 }
@@ -395,7 +398,9 @@ def check_chain(case):
     bnames, bobs, brest = base
     alone = {}
     for selkind, sel in CHAIN_SELECTORS:
-        want = spec_select(sel, CHAIN_NAMES)
+        want = spec_select(sel, bnames)
+        if want == 'reject':
+            continue
         witness = {'chain': [spread, proc], 'selkind': selkind, 'sel': sel}
         label = '%s over all resources, then %s(%s, resources=%r) on package %r' % (spread, proc, field, sel, CHAIN_NAMES)
         out['n'] += 1
@@ -404,7 +409,7 @@ def check_chain(case):
         kind, got = _run_chain(CHAIN_NAMES, mk(), CHAIN_PROCS[proc](field, sel))
         if kind == 'exc':
             # the step must then fail on a selected resource alone as well (else the selector reached further)
-            k2, g2 = _run_chain([want[0]], mk(), CHAIN_PROCS[proc](field, None))
+            k2, g2 = _run_chain([want[0]] if want and want[0] in CHAIN_NAMES else ['a'], mk(), CHAIN_PROCS[proc](field, None))
             if k2 == 'ok':
                 out['viol'].append(('chain-crash/%s/%s' % (spread, proc), '%s: raises %s: %s' % (label, core.exc_sig(got), str(got)[:100]), witness))
             out['outcomes']['chain:rejected'] = out['outcomes'].get('chain:rejected', 0) + 1
@@ -415,9 +420,11 @@ def check_chain(case):
         bad = None
         if gnames != bnames:
             bad = ('chain-order', 'resource list became %r' % gnames)
-        for n in CHAIN_NAMES:
+        for n in bnames:
             if bad:
                 break
+            if n in want and n not in CHAIN_NAMES:
+                continue              # a copy made by the spreading step: no single-resource reference
             if n in want:
                 if n not in alone:
                     k2, g2 = _run_chain([n], mk(), CHAIN_PROCS[proc](field, None))
